@@ -503,6 +503,21 @@ func main() {
 	// moved, VLogPercentile > 0) threshold (seed C26i)
 	facts = append(facts, fact{"has_sw_threshold_memo", "op", has("stream_writer.go", "sortedWriter", "handleRequests", "e.skipVlogAndSetThreshold(w.db.valueThreshold())"), "stream_writer.go:sortedWriter.handleRequests [e.skipVlogAndSetThreshold(w.db.valueThreshold())]"})
 	facts = append(facts, fact{"has_lsm_threshold_memo", "op", has("db.go", "DB", "writeToLSM", "entry.skipVlogAndSetThreshold(db.valueThreshold())"), "db.go:DB.writeToLSM [entry.skipVlogAndSetThreshold(db.valueThreshold())]"})
+	// C37 / C24: writeToLSM stores an inline value with the value-pointer bit CLEARED and there is
+	// exactly one `db.mt.Put` for inline values (no separate in-memory branch that could forget it:
+	// a loaded backup carries the raw meta byte of the source, seed C37j)
+	facts = append(facts, fact{"has_writetolsm_clears_vptr", "op", has("db.go", "DB", "writeToLSM", "entry.meta &^ bitValuePointer"), "db.go:DB.writeToLSM [Meta: entry.meta &^ bitValuePointer]"})
+	facts = append(facts, fact{"n_writetolsm_put", "nat", strconv.Itoa(strings.Count(func() string {
+		fd := findFunc("db.go", "DB", "writeToLSM")
+		if fd == nil {
+			return ""
+		}
+		return src(fd.Body)
+	}(), "db.mt.Put(")), "db.go:DB.writeToLSM [number of db.mt.Put calls: inline, pointer]"})
+	// C11 / C07: every entry a table builder adds, stale or not, counts towards the table's
+	// MaxVersion (Open seeds the next timestamp from it: seeds C11j, C07j)
+	facts = append(facts, fact{"has_addhelper_maxversion", "op", has("table/builder.go", "Builder", "addHelper", "if version := y.ParseTs(key); version > b.maxVersion {"), "table/builder.go:Builder.addHelper [version > b.maxVersion]"})
+	facts = append(facts, fact{"has_addinternal_maxversion", "op", has("table/builder.go", "Builder", "addInternal", "maxVersion"), "table/builder.go:Builder.addInternal [mentions maxVersion: should not]"})
 	// Txn.Commit / commitPrecheck
 	facts = append(facts, fact{"ord_commit_steps", "op", ascending("txn.go", "Txn", "Commit",
 		"len(txn.pendingWrites) == 0", "txn.commitPrecheck()", "txn.commitAndSend()"), "txn.go:Txn.Commit [order of steps]"})
